@@ -384,4 +384,51 @@ def applyOp (s : GState) : GOp → GState
 
 def runOps (s : GState) (ops : List GOp) : GState := ops.foldl applyOp s
 
+/-! ### reading a record: `Record.from_biopython` → `CDSFeature.from_biopython` / `Gene.from_biopython` -/
+
+/-- a biopython `gene` or `CDS` feature: location and the qualifiers that carry identifiers
+    (`none` = qualifier absent) -/
+structure BioFeat where
+  isCds : Bool
+  loc : Loc
+  locusTag : Option Str := none
+  gene : Option Str := none
+  proteinId : Option Str := none
+  pseudo : Bool := false       -- a `pseudo` or `pseudogene` qualifier is present
+
+/-- `pop_locus_qualifier(qualifiers, allow_missing=True, default=None)`: missing or empty → None,
+    otherwise the value with the blanks (inserted by biopython at line breaks) removed -/
+def popLocus : Option Str → Option Str
+  | none => none
+  | some s => if s.isEmpty then none else some (s.filter (· != ' '))
+
+/-- `"cds%d_%d" % (start, end)` / `"pseudo%d_%d"` / `f"gene{start}_{end}"` -/
+def positionalName (pre : Str) (l : Loc) : Str := pre ++ intChars l.start ++ '_' :: intChars l.end
+
+/-- the `CDSFeature` that `CDSFeature.from_biopython` builds (identifier part): a feature without
+    any identifier is named after its position -/
+def cdsOfBio (f : BioFeat) : Cds :=
+  let lt := popLocus f.locusTag
+  let gene := if truthy f.gene || truthy f.proteinId || truthy lt then f.gene
+              else some (positionalName (if f.pseudo then "pseudo".toList else "cds".toList) f.loc)
+  mkCds f.loc lt gene f.proteinId
+
+/-- `Gene.from_biopython(...).get_name()` -/
+def geneNameOfBio (f : BioFeat) : Str :=
+  let locus := popLocus f.locusTag
+  let name := if truthy f.gene then f.gene else none          -- `pop("gene", [""])[0] or None`
+  let name := if truthy locus || truthy name then name else some (positionalName "gene".toList f.loc)
+  if truthy locus then locus.getD [] else name.getD []
+
+/-- the feature loop of `Record.from_biopython` for gene / CDS features: the first
+    `SecmetInvalidInputError` rejects the whole record -/
+def fromBiopython : GState → List BioFeat → Except GErr GState
+  | s, [] => .ok s
+  | s, f :: fs =>
+    if f.isCds then
+      match addCds s (cdsOfBio f) with
+      | .error e => .error e
+      | .ok (s', _) => fromBiopython s' fs
+    else fromBiopython (addGene s (geneNameOfBio f) f.loc) fs
+
 end ASV.Ids
